@@ -7,7 +7,7 @@
   of file events (open for writing, rename, remove, copy) with the innermost
   biogeme frame attached;
 * a minimal TOML writer for parameter files (documented coding: booleans as the
-  strings "True"/"False") and the legacy-tomlkit comment shim;
+  strings "True"/"False");
 * comparison helpers for data frames / statistics (exact, NaN-aware).
 """
 from __future__ import annotations
@@ -370,29 +370,6 @@ def write_parameter_file(path: str, values: dict, bool_spellings: dict | None = 
             for name, v in items:
                 sp = (bool_spellings or {}).get((name, s))
                 f.write(f'{name} = {toml_value(v, sp)}\n')
-
-
-@contextlib.contextmanager
-def legacy_tomlkit_comment():
-    """older tomlkit releases accepted line breaks in Item.comment (biogeme declares
-    tomlkit>=0.12.5 and relies on it). Inside this context Item.comment behaves
-    as in those releases; outside, the installed tomlkit is untouched."""
-    import tomlkit.items as ti
-
-    orig = ti.Item.comment
-
-    def comment(self, comment):
-        if not comment.strip().startswith('#'):
-            comment = '# ' + comment
-        self._trivia.comment_ws = ' '
-        self._trivia.comment = comment
-        return self
-
-    ti.Item.comment = comment
-    try:
-        yield
-    finally:
-        ti.Item.comment = orig
 
 
 # ----------------------------------------------------------------------------
